@@ -68,6 +68,12 @@ def ite(c, a, b):
     return a if c else b
 
 
+def case_split(*conds):
+    """proof hint: fork the symbolic path on every condition while *verifying* the enclosing contract
+    (ignored where the contract is used modularly); True natively"""
+    return True
+
+
 def forall_range(lo, hi, fn):
     return all(fn(i) for i in range(lo, hi))
 
